@@ -133,6 +133,10 @@ def run(ctx):
         if style == STYLES[ctx.shard % len(STYLES)]:
             SC.bracket_string_lane(ctx, ctx.rng("brackets" + style), make_select(style, lambda x: x),
                                    findings.sqla_semantic_triggers, profile=clean)
+        SC.math_of_literal_lane(ctx, ctx.rng("mathlit" + style), make_select(style, lambda x: x),
+                                findings.sqla_semantic_triggers, profile=clean)
+        SC.neutral_boolean_lane(ctx, ctx.rng("neutral" + style), make_select(style, lambda x: x),
+                                findings.sqla_semantic_triggers, profile=clean)
         SC.grouping_grid_lane(ctx, ctx.rng("grid" + style), make_select(style, lambda x: x),
                               findings.sqla_semantic_triggers, profile=clean)
         SC.spelling_twin_lane(ctx, ctx.rng("twin" + style), make_select(style, lambda x: x),
